@@ -124,6 +124,25 @@ def bare_shapes():
     return out
 
 
+def twin_shape(rng):
+    """shapes for the twin cases (<= 6 resources): tuples of several arities, nestings, derived structs"""
+    while True:
+        m = rng.random()
+        if m < 0.3:
+            n = rng.choice([1, 2, 3, 4, 5, 6])
+            tb = compose("tuple", [leaf(rng.choice(RES_KINDS), i + 1, (i + 1) % n + 1) for i in range(n)])
+        elif m < 0.5:
+            n = rng.choice([7, 9, 12, 16, 20, 23, 26])
+            nres = rng.randint(2, 5)
+            tb = compose("tuple", [rand_leaf(rng, nres, ["Read", "ReadExpect", "OptRead", "Unit", "Phantom", "ReadH"]) for _ in range(n)])
+        elif m < 0.8:
+            tb = deep_shape(rng)
+        else:
+            tb = compose(rng.choice(["named", "tstruct"]), [rand_tree(rng, 3, 1, 3, ALL_KINDS, 0.5) for _ in range(rng.randint(1, 4))])
+        if 1 <= nres_of(tb) <= 6 and any(x["t"] == "tuple" for x in tb):
+            return tb
+
+
 def rand_leaf(rng, nres, kinds=ALL_KINDS):
     k = rng.choice(kinds)
     r = rng.randint(1, nres)
@@ -172,10 +191,14 @@ PHANTOMS = ["u8", "str", "dyn Send", "&'a u8", "D0", "(Write<'a, D1>,)", "[u32]"
 
 
 class Spelling:
-    def __init__(self, rng, case_id, tb, nres_total, bare_nodes=()):
+    def __init__(self, rng, case_id, tb, nres_total, bare_nodes=(), twin=False):
+        """twin: the type is spelled GENERIC in its resource types (P0, P1, ..: type parameters of the
+        surrounding generic code); derived structs then take every resource type / composite member
+        through their own type parameters"""
         self.rng, self.cid, self.tb = rng, case_id, tb
         self.bare_nodes = set(bare_nodes)
         self.nbare = 0
+        self.twin = twin
         self.defs = []
         self.nstruct = 0
         self.normalised = 0
@@ -187,7 +210,9 @@ class Spelling:
             pool = list(range(NCONC))
         rng.shuffle(pool)
         self.conc = []
-        for r in range(1, nres_total + 1):
+        if twin:
+            self.conc = ["P%d" % i for i in range(nres_total)]
+        for r in range(1, (0 if twin else nres_total) + 1):
             c = pool[r - 1]
             if r in need_default or rng.random() < 0.4:
                 self.conc.append("D%d" % c)
@@ -239,6 +264,9 @@ class Spelling:
         self.nstruct += 1
         flavour = "plain" if force_plain else rng.choice(["plain", "plain", "tparam", "tparam_where", "lifetime", "both",
                                                           "bare", "bare_where", "bare_mix"])
+        twin = self.twin
+        if twin:
+            flavour = rng.choice(["bare_mix", "both", "tparam_where"])
         tparams, targs, lts, ltargs, fields = [], [], [], [], []
         nbare = 0
         bounds_inline, bounds_where = [], []
@@ -247,8 +275,11 @@ class Spelling:
         lt_field = phantoms[0] if phantoms and flavour in ("lifetime", "both") else None
         for i, k in enumerate(x["kids"]):
             y = self.tb[k - 1]
-            if not force_plain and (k in self.bare_nodes or (flavour in ("bare", "bare_where", "bare_mix") and nbare < 3
-                                                             and rng.random() < 0.5)):
+            twin_leaf = twin and y["t"] == "leaf" and y["kind"] in RES_KINDS and y["kind"] not in H_KINDS
+            twin_bare = twin and not twin_leaf and not (y["t"] == "leaf" and y["kind"] in NO_KINDS)
+            if not force_plain and not twin_leaf and (
+                    k in self.bare_nodes or twin_bare
+                    or (flavour in ("bare", "bare_where", "bare_mix") and nbare < 3 and rng.random() < 0.5)):
                 # the member's type is a bare type parameter U: SystemData<'a>, instantiated at the use site
                 p = "U%d" % nbare
                 nbare += 1
@@ -259,8 +290,9 @@ class Spelling:
                 else:
                     bounds_inline.append("%s: SystemData<'a>" % p)
                 fields.append(p)
-            elif y["t"] == "leaf" and y["kind"] in RES_KINDS and flavour in ("tparam", "tparam_where", "both", "bare_mix") \
-                    and len(tparams) < 3 and rng.random() < 0.7:
+            elif twin_leaf or (y["t"] == "leaf" and y["kind"] in RES_KINDS and y["kind"] not in H_KINDS
+                               and flavour in ("tparam", "tparam_where", "both", "bare_mix")
+                               and len(tparams) < 3 and rng.random() < 0.7):
                 p = "T%d" % len(tparams)
                 tparams.append(p)
                 targs.append(self.conc[y["res"] - 1])
@@ -291,7 +323,7 @@ class Spelling:
             rng.setstate(st0[0])
             self.nstruct = st0[1]
             del self.defs[st0[2]:]
-            if phantoms and not force_plain:
+            if phantoms and not force_plain and not twin:
                 r = self.derived_with_a(x, phantoms[0])
                 if r:
                     return r
@@ -389,7 +421,7 @@ def unit_rs(out_dir, bin_name):
 
 
 def generate(mc_files, arity_files, seed, n_mc, n_arity, n_rot, n_deep, n_wide, out_dir, desc_dir, units=1,
-             extra_mc=2, extra_gen=6):
+             extra_mc=2, extra_gen=6, n_twin=0):
     """-> (stats, [unit...]); unit = {"bin", "rs", "desc", "types", "hash"}.  The cases are dealt
     round-robin to `units` compilation units (bins zoo, zoo1, ..); unused units get the placeholder."""
     rng = random.Random(seed)
@@ -446,15 +478,34 @@ def generate(mc_files, arity_files, seed, n_mc, n_arity, n_rot, n_deep, n_wide, 
         tb = wide_shape(rng)
         add("gen-wide", tb, nres_of(tb), [], extra_gen)
 
+    # twins: one generic type instantiated from two sibling blocks with same-named local resource types
+    twins = []
+    next_id = len(cases) + 1
+    for _ in range(n_twin):
+        tb = twin_shape(rng)
+        nres_total = min(nres_of(tb) + 1, 7)
+        sp = Spelling(rng, next_id, tb, nres_total, twin=True)
+        ty = sp.ty(1)
+        pair = []
+        for half in "ab":
+            pair.append({"id": next_id, "origin": "twin-" + half, "ty": ty, "defs": sp.defs if half == "a" else [],
+                         "shape": tb, "nres": nres_total, "normalised": sp.normalised if half == "a" else 0,
+                         "nbare": sp.nbare if half == "a" else 0,
+                         "conc": ["R%d" % i for i in range(nres_total)], "runs": [], "extra": extra_gen})
+            next_id += 1
+        twins.append(pair)
+
     units = max(1, min(units, len(UNIT_BINS)))
     out_units = []
     for u, bin_name in enumerate(UNIT_BINS):
         mine = cases[u::units] if u < units else []
+        mytwins = twins[u::units] if u < units else []
         rs = unit_rs(out_dir, bin_name)
-        if not mine:
+        if not mine and not mytwins:
             placeholder(rs)
             continue
-        dcases = [{k: c[k] for k in ("id", "origin", "ty", "shape", "nres", "conc", "runs", "extra")} for c in mine]
+        dcases = [{k: c[k] for k in ("id", "origin", "ty", "shape", "nres", "conc", "runs", "extra")}
+                  for c in mine + [h for pr in mytwins for h in pr]]
         h = hashlib.sha1(json.dumps(dcases, sort_keys=True).encode()).hexdigest()[:16]
         dpath = "%s/desc_%s.json" % (desc_dir, bin_name)
         with open(dpath, "w") as f:
@@ -471,8 +522,17 @@ def generate(mc_files, arity_files, seed, n_mc, n_arity, n_rot, n_deep, n_wide, 
             for c in mine:
                 f.write("    &c%d::OPS,\n" % c["id"])
             f.write("];\n")
+            for a, b in mytwins:
+                for d in a["defs"]:
+                    f.write(d + "\n")
+                n = a["nres"]
+                f.write("shredh::zoo_twin!(t%d, %d, %d, 'a, [%s], [%s], %s);\n" % (
+                    a["id"], a["id"], b["id"], ", ".join("P%d" % i for i in range(n)),
+                    ", ".join("R%d = %d" % (i, i) for i in range(n)), a["ty"]))
+            f.write("pub static TWINS: &[shredh::zoo::TwinFn] = &[%s];\n" % ", ".join("t%d::run" % a["id"] for a, _ in mytwins))
         os.replace(tmp, rs)
-        out_units.append({"bin": bin_name, "rs": rs, "desc": dpath, "types": len(mine), "hash": h})
+        out_units.append({"bin": bin_name, "rs": rs, "desc": dpath, "types": len(mine) + 2 * len(mytwins), "hash": h})
+    cases = cases + [h for pr in twins for h in pr]
     by_origin = {}
     for c in cases:
         by_origin[c["origin"]] = by_origin.get(c["origin"], 0) + 1
@@ -500,6 +560,7 @@ def placeholder(out_rs):
         f.write("// placeholder written by harness/gen/zoo.py (the real file is a build artefact of bin/check C06)\n")
         f.write("pub const GEN_HASH: &str = \"placeholder\";\n")
         f.write("pub static CASES: &[&shredh::zoo::Ops] = &[];\n")
+        f.write("pub static TWINS: &[shredh::zoo::TwinFn] = &[];\n")
 
 
 def main():
@@ -513,6 +574,7 @@ def main():
     ap.add_argument("--n-deep", type=int, default=50)
     ap.add_argument("--n-wide", type=int, default=50)
     ap.add_argument("--units", type=int, default=1)
+    ap.add_argument("--n-twin", type=int, default=10)
     ap.add_argument("--out-dir", required=True, help="harness/gen-out")
     ap.add_argument("--desc-dir")
     ap.add_argument("--placeholder", action="store_true")
@@ -520,7 +582,7 @@ def main():
     if a.placeholder:
         placeholders(a.out_dir)
         return
-    st, units = generate(a.mc, a.arity, a.seed, a.n_mc, a.n_arity, a.n_rot, a.n_deep, a.n_wide, a.out_dir, a.desc_dir, a.units)
+    st, units = generate(a.mc, a.arity, a.seed, a.n_mc, a.n_arity, a.n_rot, a.n_deep, a.n_wide, a.out_dir, a.desc_dir, a.units, n_twin=a.n_twin)
     print(json.dumps({"stats": st, "units": units}))
 
 
